@@ -665,7 +665,7 @@ pub fn gen_corpus(rng: &mut Rng, cfg: &CorpusCfg) -> Corpus {
     let small_all = rng.chance(2, 3);
     for (g, &sz) in groups.iter().enumerate() {
         let seg: Vec<usize> = (start..start + sz).collect();
-        let mut put = |docs: &mut Vec<MDoc>, rng: &mut Rng, w: u8, n: usize| {
+        let put = |docs: &mut Vec<MDoc>, rng: &mut Rng, w: u8, n: usize| {
             if n > sz {
                 return;
             }
@@ -1506,7 +1506,6 @@ fn eval_phrase(terms: &[(usize, u8)], slop: u32, d: &MDoc) -> Tri {
     }
     let n = terms.len();
     let mut idx = vec![0usize; n];
-    let mut definite = false;
     let mut possible = false;
     loop {
         let deltas: Vec<i64> = (0..n).map(|i| lists[i][idx[i]] - terms[i].0 as i64).collect();
@@ -1519,15 +1518,14 @@ fn eval_phrase(terms: &[(usize, u8)], slop: u32, d: &MDoc) -> Tri {
             let med = s[n / 2];
             let mv: i64 = deltas.iter().map(|x| (x - med).abs()).sum();
             if adj <= slop as i64 && mv <= slop as i64 {
-                definite = true;
-                break;
+                return T;
             }
         }
         // next combination
         let mut k = 0;
         loop {
             if k == n {
-                return if definite { T } else if possible { (true, true) } else { F };
+                return if possible { (true, true) } else { F };
             }
             idx[k] += 1;
             if idx[k] < lists[k].len() {
@@ -1537,7 +1535,6 @@ fn eval_phrase(terms: &[(usize, u8)], slop: u32, d: &MDoc) -> Tri {
             k += 1;
         }
     }
-    T
 }
 
 // ---------------------------------------------------------------------------------------------
@@ -1871,6 +1868,119 @@ impl<'a> QGen<'a> {
                     })
                     .collect();
                 Q::RegexPhrase { pats, slop: if rng.chance(1, 4) { 1 } else { 0 } }
+            }
+        }
+    }
+
+    fn dense_term(&self, rng: &mut Rng) -> Q {
+        let w = *rng.pick(&[W_ALL, W_HALF, W_BIG, W_HALF, W_ALL]);
+        match rng.below(5) {
+            0 => Q::Term { f: TF::Basic, w: S_ALL, opt: 0 },
+            1 => Q::Term { f: TF::Freq, w: rng.below(4) as u8, opt: 1 },
+            _ => Q::Term { f: TF::Body, w, opt: rng.below(3) as u8 },
+        }
+    }
+
+    fn sparse_leaf(&self, rng: &mut Rng) -> Q {
+        match rng.below(8) {
+            0 => Q::Term { f: TF::Body, w: *rng.pick(&[W_ONE, W_127, W_128, W_129]), opt: rng.below(3) as u8 },
+            1 | 2 => Q::Term { f: TF::Body, w: rng.urange(N_MARK, BODY.len() - 1) as u8, opt: rng.below(3) as u8 },
+            3 => Q::Term { f: TF::Basic, w: rng.below(7) as u8, opt: 0 },
+            4 => Q::Term { f: TF::Tag, w: rng.usize_below(TAGS.len()) as u8, opt: 0 },
+            _ => self.leaf(rng),
+        }
+    }
+
+    /// Shapes aimed at the specialised scorer compositions of BooleanWeight::complex_scorer:
+    /// intersection with a (nested) union leg, exclusion by a union / by several docsets,
+    /// required-optional, minimum-should-match disjunction, >= 3-leg intersections.
+    pub fn template(&self, rng: &mut Rng) -> Q {
+        let union2 = |g: &Self, rng: &mut Rng| Q::Bool {
+            clauses: vec![(Oc::Should, g.sparse_leaf(rng)), (Oc::Should, g.sparse_leaf(rng))],
+            msm: if rng.bool() { None } else { Some(1) },
+        };
+        match rng.below(10) {
+            8 | 9 => {
+                // +sparse +(phrase-of-frequent-words | y)   /   +sparse -(phrase | y):
+                // far jumps of the driver make the union answer seek_danger outside its window
+                // while a phrase leg sits on a candidate whose positions were not checked yet
+                let frequent = [W_ALL, W_HALF, W_BIG, W_HALF];
+                let a = *rng.pick(&frequent);
+                let mut b = *rng.pick(&frequent);
+                if a == b {
+                    b = rng.urange(N_MARK, BODY.len() - 1) as u8;
+                }
+                let phrase = if rng.chance(1, 4) {
+                    let w = BODY[b as usize];
+                    let prefix = w[..rng.urange(1, w.len())].to_string();
+                    let mask = vocab_mask(BODY, |x| x.starts_with(&prefix));
+                    Q::PhrasePrefix { terms: vec![a], prefix, mask }
+                } else {
+                    Q::Phrase { terms: vec![(0, a), (1, b)], slop: 0 }
+                };
+                let union = Q::Bool { clauses: vec![(Oc::Should, phrase), (Oc::Should, self.sparse_leaf(rng))], msm: None };
+                let driver = Q::Term { f: TF::Body, w: *rng.pick(&[W_ONE, W_127, W_128, W_129, W_127]), opt: rng.below(3) as u8 };
+                let driver = if rng.chance(1, 3) { self.sparse_leaf(rng) } else { driver };
+                let occ = if rng.chance(2, 3) { Oc::Must } else { Oc::MustNot };
+                let mut clauses = vec![(Oc::Must, driver), (occ, union)];
+                if rng.chance(1, 4) {
+                    clauses.push((Oc::Should, self.sparse_leaf(rng)));
+                }
+                Q::Bool { clauses, msm: None }
+            }
+            0 | 1 => {
+                // +dense (x | (y | z))
+                let mut clauses = vec![(Oc::Must, self.dense_term(rng)), (Oc::Should, self.sparse_leaf(rng)), (Oc::Should, union2(self, rng))];
+                if rng.chance(1, 3) {
+                    clauses.push((Oc::Should, self.sparse_leaf(rng)));
+                }
+                rng.shuffle(&mut clauses);
+                Q::Bool { clauses, msm: Some(1) }
+            }
+            2 => {
+                // +dense -(y | z) [-w]
+                let mut clauses = vec![(Oc::Must, self.dense_term(rng)), (Oc::MustNot, union2(self, rng))];
+                if rng.bool() {
+                    clauses.push((Oc::MustNot, self.sparse_leaf(rng)));
+                }
+                Q::Bool { clauses, msm: None }
+            }
+            3 => {
+                // minimum-should-match disjunction
+                let n = rng.urange(3, 6);
+                let clauses: Vec<(Oc, Q)> = (0..n)
+                    .map(|_| (Oc::Should, if rng.bool() { self.dense_term(rng) } else { self.sparse_leaf(rng) }))
+                    .collect();
+                Q::Bool { clauses, msm: Some(rng.urange(2, n - 1)) }
+            }
+            4 => {
+                // >= 3-leg intersection
+                let n = rng.urange(3, 5);
+                let clauses: Vec<(Oc, Q)> = (0..n)
+                    .map(|_| (Oc::Must, if rng.chance(2, 3) { self.dense_term(rng) } else { self.leaf(rng) }))
+                    .collect();
+                Q::Bool { clauses, msm: None }
+            }
+            5 => {
+                // required-optional
+                Q::Bool {
+                    clauses: vec![(Oc::Must, self.dense_term(rng)), (Oc::Should, self.sparse_leaf(rng)), (Oc::Should, self.dense_term(rng))],
+                    msm: if rng.bool() { None } else { Some(0) },
+                }
+            }
+            6 => {
+                // union of unions, also through dismax
+                Q::DisMax(vec![union2(self, rng), self.sparse_leaf(rng), union2(self, rng)], 0.3)
+            }
+            _ => {
+                // +(a | b) +(c | d) : intersection of unions
+                Q::Bool {
+                    clauses: vec![(Oc::Must, union2(self, rng)), (Oc::Must, Q::Bool {
+                        clauses: vec![(Oc::Should, self.dense_term(rng)), (Oc::Should, self.sparse_leaf(rng))],
+                        msm: None,
+                    })],
+                    msm: None,
+                }
             }
         }
     }
